@@ -345,12 +345,12 @@ theorem levelStep_leaf (t : Tag) (p : Prim) (l : Nat) : levelStep ⟨t.type, p.v
   simp only [ValueType.isContainer, Bool.or_eq_false_iff] at h
   simp [levelStep, h.2, ValueType.isContainer, h.1]
 
-theorem levelStep_open (tt : TagType) (k : Kind) (l : Nat) (h : l + 1 < USIZE) :
+theorem levelStep_open (tt : TagType) (k : Kind) (l : Nat) (h : l + 1 < I32LIM) :
     levelStep ⟨tt, .cont k⟩ l = .ok (l + 1) := by
-  simp [levelStep, ValueType.isContainerEnd, ValueType.isContainer, ValueType.isContainerStart, addUsize, h]
+  simp [levelStep, ValueType.isContainerEnd, ValueType.isContainer, ValueType.isContainerStart, addI32, h]
 
 theorem levelStep_end (l : Nat) : levelStep ⟨.anon, .endCnt⟩ (l + 1) = .ok l := by
-  simp [levelStep, ValueType.isContainerEnd, Control.confirmContainerEnd, Control.isContainerEnd, subUsize]
+  simp [levelStep, ValueType.isContainerEnd, Control.confirmContainerEnd, Control.isContainerEnd, subI32]
 
 /-! ### skipping (`container_next`) over the writer's bytes -/
 
@@ -359,7 +359,7 @@ theorem skipLoop_leaf (f : Nat) (t : Tag) (p : Prim) (more : Bytes) (l : Nat) (h
   rw [encode_leaf_append]
   simp only [skipLoop, control_header, Res.ok_bind, levelStep_leaf, nextEnter_leaf t p more h]
 
-theorem skipLoop_open (f : Nat) (t : Tag) (k : Kind) (X : Bytes) (l : Nat) (h : l + 2 < USIZE) :
+theorem skipLoop_open (f : Nat) (t : Tag) (k : Kind) (X : Bytes) (l : Nat) (h : l + 2 < I32LIM) :
     skipLoop (f + 1) (header t (.cont k) ++ X) (l + 1) = skipLoop f X (l + 2) := by
   simp only [skipLoop, control_header, Res.ok_bind, levelStep_open _ _ _ h, nextEnter_open]
 
@@ -368,7 +368,7 @@ theorem skipLoop_end (f : Nat) (more : Bytes) (l : Nat) :
   simp only [skipLoop, control_end, Res.ok_bind, levelStep_end, nextEnter_end]
 
 mutual
-theorem skipLoop_value (v : Value) (f : Nat) (more : Bytes) (l : Nat) (hw : v.wf) (hd : l + v.depth + 1 < USIZE) :
+theorem skipLoop_value (v : Value) (f : Nat) (more : Bytes) (l : Nat) (hw : v.wf) (hd : l + v.depth + 1 < I32LIM) :
     skipLoop (f + v.ntoks) (encode v ++ more) (l + 1) = skipLoop f more (l + 1) := by
   cases v with
   | leaf t p => exact skipLoop_leaf f t p more l hw.2
@@ -380,7 +380,7 @@ theorem skipLoop_value (v : Value) (f : Nat) (more : Bytes) (l : Nat) (hw : v.wf
     rw [e, skipLoop_open _ _ _ _ _ (by omega)]
     rw [skipLoop_values cs (f + 1) (endByte :: more) (l + 1) hw.2 (by omega)]
     exact skipLoop_end f more (l + 1)
-theorem skipLoop_values (vs : Values) (f : Nat) (more : Bytes) (l : Nat) (hw : vs.wf) (hd : l + vs.depth + 1 < USIZE) :
+theorem skipLoop_values (vs : Values) (f : Nat) (more : Bytes) (l : Nat) (hw : vs.wf) (hd : l + vs.depth + 1 < I32LIM) :
     skipLoop (f + vs.ntoks) (encodes vs ++ more) (l + 1) = skipLoop f more (l + 1) := by
   cases vs with
   | nil => simp [Values.ntoks, encodes]
@@ -408,7 +408,7 @@ theorem control_encode (v : Value) (more : Bytes) :
   | cont t k cs => exact ⟨⟨t.type, .cont k⟩, by rw [encode_cont_append, control_header], rfl⟩
 
 /-- `container_next` skips exactly one written element -/
-theorem containerNext_encode (v : Value) (more : Bytes) (hw : v.wf) (hd : v.depth + 1 < USIZE) :
+theorem containerNext_encode (v : Value) (more : Bytes) (hw : v.wf) (hd : v.depth + 1 < I32LIM) :
     containerNext (encode v ++ more) = .ok more := by
   cases v with
   | leaf t p =>
@@ -432,7 +432,7 @@ theorem containerNext_encode (v : Value) (more : Bytes) (hw : v.wf) (hd : v.dept
     simp [skipLoop]
 
 /-- one `next()` of the element iterator on a written element followed by anything -/
-theorem iterNext_encode (v : Value) (X : Bytes) (hw : v.wf) (hd : v.depth + 1 < USIZE) :
+theorem iterNext_encode (v : Value) (X : Bytes) (hw : v.wf) (hd : v.depth + 1 < I32LIM) :
     iterNext (encode v ++ X) = (some (.ok (encode v ++ X)), X) := by
   obtain ⟨c, hc, hend⟩ := control_encode v X
   have hcur : current (encode v ++ X) = .ok (encode v ++ X) := by
@@ -457,7 +457,7 @@ theorem elementsF_succ (f : Nat) (seq : Bytes) :
       | (some r, seq') => r :: elementsF f seq' := rfl
 
 /-- iterating over the content of a written container yields exactly its children, then stops -/
-theorem elementsF_encodes : ∀ (vs : Values) (n : Nat) (more : Bytes), vs.wf → vs.depth + 1 < USIZE →
+theorem elementsF_encodes : ∀ (vs : Values) (n : Nat) (more : Bytes), vs.wf → vs.depth + 1 < I32LIM →
     elementsF (n + vs.len + 1) (encodes vs ++ endByte :: more) = (childSuffixes vs more).map .ok
   | .nil, n, more, _, _ => by
     simp [encodes, elementsF, iterNext_end, childSuffixes]
@@ -516,7 +516,7 @@ theorem cvlStep_leaf (f : Nat) (t : Tag) (p : Prim) (more : Bytes) (len l : Nat)
   rfl
 
 theorem cvlStep_open (f : Nat) (t : Tag) (k : Kind) (X : Bytes) (len l : Nat)
-    (hl : len + (header t (.cont k)).length < USIZE) (hd : l + 2 < USIZE) :
+    (hl : len + (header t (.cont k)).length < USIZE) (hd : l + 2 < I32LIM) :
     cvlStep (f + 1) (header t (.cont k) ++ X) len l = cvlStep f X (len + (header t (.cont k)).length) (l + 1) := by
   unfold cvlStep
   simp only [elemLen_open, Res.ok_bind, checkedAdd_ok hl, control_header, levelStep_open _ _ _ hd, cvlLoop_succ, nextEnter_open]
@@ -536,7 +536,7 @@ theorem cvlStep_last (f : Nat) (more : Bytes) (len : Nat) (hl : len + 1 < USIZE)
 
 mutual
 theorem cvlStep_value (v : Value) (f : Nat) (more : Bytes) (len l : Nat) (hw : v.wf)
-    (hl : len + (encode v).length < USIZE) (hd : l + v.depth + 1 < USIZE) :
+    (hl : len + (encode v).length < USIZE) (hd : l + v.depth + 1 < I32LIM) :
     cvlStep (f + v.ntoks) (encode v ++ more) len l = cvlStep f more (len + (encode v).length) l := by
   cases v with
   | leaf t p => exact cvlStep_leaf f t p more len l hw.2 hl
@@ -552,7 +552,7 @@ theorem cvlStep_value (v : Value) (f : Nat) (more : Bytes) (len l : Nat) (hw : v
     rw [cvlStep_end f more _ l (by omega)]
     congr 1; omega
 theorem cvlStep_values (vs : Values) (f : Nat) (more : Bytes) (len l : Nat) (hw : vs.wf)
-    (hl : len + (encodes vs).length < USIZE) (hd : l + vs.depth + 1 < USIZE) :
+    (hl : len + (encodes vs).length < USIZE) (hd : l + vs.depth + 1 < I32LIM) :
     cvlStep (f + vs.ntoks) (encodes vs ++ more) len l = cvlStep f more (len + (encodes vs).length) l := by
   cases vs with
   | nil => simp [Values.ntoks, encodes]
@@ -569,7 +569,7 @@ end
 
 /-- `container_value_len` of a written container: its content plus the end marker -/
 theorem containerValueLen_cont (t : Tag) (k : Kind) (cs : Values) (more : Bytes) (hw : cs.wf)
-    (hl : (encodes cs).length + 1 < USIZE) (hd : cs.depth + 1 < USIZE) :
+    (hl : (encodes cs).length + 1 < I32LIM) (hd : cs.depth + 1 < I32LIM) :
     containerValueLen (encode (.cont t k cs) ++ more) ⟨t.type, .cont k⟩ = .ok ((encodes cs).length + 1) := by
   simp only [containerValueLen, ValueType.isContainer, ValueType.isContainerStart, Bool.true_or, if_true]
   rw [encode_cont_append, cvlLoop_succ, nextEnter_open, Res.ok_bind]
@@ -577,12 +577,13 @@ theorem containerValueLen_cont (t : Tag) (k : Kind) (cs : Values) (more : Bytes)
   obtain ⟨f, hf⟩ : ∃ f, (header t (ValueType.cont k) ++ (encodes cs ++ endByte :: more)).length = f + cs.ntoks := by
     refine ⟨(header t (ValueType.cont k) ++ (encodes cs ++ endByte :: more)).length - cs.ntoks, ?_⟩
     simp [header]; omega
+  have hLU := i32lim_lt_usize
   rw [hf, cvlStep_values cs f (endByte :: more) 0 0 hw (by omega) (by omega)]
   rw [cvlStep_last _ _ _ (by omega)]
   simp
 
 theorem valueOf_cont (t : Tag) (k : Kind) (cs : Values) (more : Bytes) (hw : cs.wf)
-    (hl : (encodes cs).length + 1 < USIZE) (hd : cs.depth + 1 < USIZE) :
+    (hl : (encodes cs).length + 1 < I32LIM) (hd : cs.depth + 1 < I32LIM) :
     valueOf (encode (.cont t k cs) ++ more) = .ok (.cont k) := by
   have h1 := containerValueLen_cont t k cs more hw hl hd
   unfold valueOf containerValue
@@ -613,7 +614,7 @@ theorem containerOf_cont (t : Tag) (k : Kind) (cs : Values) (more : Bytes) :
   rw [encode_cont_append]
   simp [containerOf, ValueType.isContainerStart, nextEnter_open]
 
-theorem elements_encodes (vs : Values) (more : Bytes) (hw : vs.wf) (hd : vs.depth + 1 < USIZE) :
+theorem elements_encodes (vs : Values) (more : Bytes) (hw : vs.wf) (hd : vs.depth + 1 < I32LIM) :
     elements (encodes vs ++ endByte :: more) = (childSuffixes vs more).map .ok := by
   unfold elements
   have h1 := Values.len_le vs
@@ -624,7 +625,7 @@ theorem elements_encodes (vs : Values) (more : Bytes) (hw : vs.wf) (hd : vs.dept
 
 mutual
 theorem decodeTree_encode (v : Value) (d : Nat) (more : Bytes) (hw : v.wf)
-    (hl : (encode v).length + 1 < USIZE) (hd : v.depth ≤ d) : decodeTree d (encode v ++ more) = .ok v := by
+    (hl : (encode v).length + 1 < I32LIM) (hd : v.depth ≤ d) : decodeTree d (encode v ++ more) = .ok v := by
   cases v with
   | leaf t p =>
     obtain ⟨d', rfl⟩ : ∃ d', d = d' + 1 := ⟨d - 1, by simp [Value.depth] at hd; omega⟩
@@ -645,7 +646,7 @@ theorem decodeTree_encode (v : Value) (d : Nat) (more : Bytes) (hw : v.wf)
     rw [decodeSeq_encode cs d' more hw.2 (by omega) (by omega)]
     rfl
 theorem decodeSeq_encode (vs : Values) (d : Nat) (more : Bytes) (hw : vs.wf)
-    (hl : (encodes vs).length + 1 < USIZE) (hd : vs.depth ≤ d) :
+    (hl : (encodes vs).length + 1 < I32LIM) (hd : vs.depth ≤ d) :
     decodeSeq (decodeTree d) ((childSuffixes vs more).map .ok) = .ok vs := by
   cases vs with
   | nil => rfl
@@ -870,7 +871,7 @@ theorem isContainer_varSizeLen {vt : ValueType} (h : vt.isContainer = true) : vt
 
 /-- re-encoding a decoded element (`ToTLV for TLVElement` with the element's own tag) reproduces
 exactly the bytes of the element: the first `container_len()` bytes of the input -/
-theorem reencode_take (bs out : Bytes) (hne : bs ≠ []) (hu : bs.length + 1 < USIZE)
+theorem reencode_take (bs out : Bytes) (hne : bs ≠ []) (hu : bs.length < I32LIM)
     (h : reencode bs = .ok out) : ∃ n, containerLen bs = .ok n ∧ out = bs.take n := by
   cases bs with
   | nil => exact absurd rfl hne
@@ -898,7 +899,7 @@ theorem reencode_take (bs out : Bytes) (hne : bs ≠ []) (hu : bs.length + 1 < U
     have hclen : containerLen (b :: tl) = .ok (1 + c.tag.size + c.vt.varSizeLen + n) := by
       unfold containerLen
       simp only [hc, Res.ok_bind, hn, hdrLen]
-      rw [checkedAdd_ok (by simp at hu ⊢; omega)]
+      rw [checkedAdd_ok (by have hLU := i32lim_lt_usize; simp at hu ⊢; omega)]
       simp only [Res.ok_bind]
       rw [if_pos (by simp; omega)]; rfl
     refine ⟨_, hclen, ?_⟩
@@ -958,5 +959,147 @@ theorem mkSint_eq (i : Int) : ∃ w, Prim.mkSint i = .sint w i := by
   · split
     · exact ⟨_, rfl⟩
     · split <;> exact ⟨_, rfl⟩
+
+/-! ### the fallible writer `TLVWrite::tlv` (after the fix): refuses what does not fit, otherwise `encode` -/
+
+/-- `Prim.wf` = what the Rust types enforce + the writer's length check -/
+theorem Prim.wf_iff (p : Prim) : p.wf ↔ p.typed ∧ p.lenFits = true := by
+  cases p <;> simp [Prim.wf, Prim.typed, Prim.lenFits, and_comm]
+
+mutual
+theorem Value.wf_iff : ∀ v : Value, v.wf ↔ v.typed ∧ v.lenFits = true
+  | .leaf t p => by
+    simp only [Value.wf, Value.typed, Value.lenFits, Prim.wf_iff]
+    exact ⟨fun ⟨a, b, c⟩ => ⟨⟨a, b⟩, c⟩, fun ⟨⟨a, b⟩, c⟩ => ⟨a, b, c⟩⟩
+  | .cont t k cs => by
+    simp only [Value.wf, Value.typed, Value.lenFits, Values.wf_iff cs]
+    exact ⟨fun ⟨a, b, c⟩ => ⟨⟨a, b⟩, c⟩, fun ⟨⟨a, b⟩, c⟩ => ⟨a, b, c⟩⟩
+theorem Values.wf_iff : ∀ vs : Values, vs.wf ↔ vs.typed ∧ vs.lenFits = true
+  | .nil => by simp [Values.wf, Values.typed, Values.lenFits]
+  | .cons v vs => by
+    simp only [Values.wf, Values.typed, Values.lenFits, Value.wf_iff v, Values.wf_iff vs, Bool.and_eq_true]
+    exact ⟨fun ⟨⟨a, b⟩, c, d⟩ => ⟨⟨a, c⟩, b, d⟩, fun ⟨⟨a, c⟩, b, d⟩ => ⟨⟨a, b⟩, c, d⟩⟩
+end
+
+mutual
+/-- the fallible writer either refuses the tree (`InvalidData`: some string does not fit its length field)
+or produces exactly `encode v` -/
+theorem write_eq : ∀ v : Value, write v = if v.lenFits then .ok (encode v) else .err .invalidData
+  | .leaf t p => by
+    cases h : p.lenFits <;> simp [write, writeLeaf, Value.lenFits, encode, h]
+  | .cont t k cs => by
+    cases h : cs.lenFits <;> simp [write, writes_eq cs, Value.lenFits, encode, h]
+theorem writes_eq : ∀ vs : Values, writes vs = if vs.lenFits then .ok (encodes vs) else .err .invalidData
+  | .nil => by simp [writes, Values.lenFits, encodes]
+  | .cons v vs => by
+    cases h1 : v.lenFits <;> cases h2 : vs.lenFits <;>
+      simp [writes, write_eq v, writes_eq vs, Values.lenFits, encodes, h1, h2]
+end
+
+theorem write_ok_iff (v : Value) (b : Bytes) : write v = .ok b ↔ v.lenFits = true ∧ b = encode v := by
+  rw [write_eq]
+  split
+  · rename_i h; simp [h, eq_comm]
+  · rename_i h; simp [h]
+
+/-! ### the `i32` level counter overflows on a whole run: 2^31 nested structure starts (symbolic, by a loop lemma) -/
+
+theorem header_anon_struct : header .anon (.cont .struct) = [0x15] := by decide
+
+/-- skipping over `k` anonymous structure starts raises the `i32` level by `k` (as long as it fits) -/
+theorem skipLoop_opens : ∀ (k f : Nat) (rest : Bytes) (l : Nat), l + k + 1 < I32LIM →
+    skipLoop (f + k) (List.replicate k 0x15 ++ rest) (l + 1) = skipLoop f rest (l + 1 + k)
+  | 0, f, rest, l, _ => by simp
+  | k + 1, f, rest, l, h => by
+    have e : List.replicate (k + 1) (0x15 : UInt8) ++ rest
+        = header .anon (.cont .struct) ++ (List.replicate k 0x15 ++ rest) := by
+      rw [header_anon_struct, List.replicate_succ]; rfl
+    rw [e, show f + (k + 1) = (f + k) + 1 by omega, skipLoop_open _ _ _ _ _ (by omega)]
+    rw [skipLoop_opens k f rest (l + 1) (by omega)]
+    congr 1; omega
+
+/-- at `level = i32::MAX` the next container start makes the whole loop panic -/
+theorem skipLoop_overflow (f : Nat) (X : Bytes) :
+    skipLoop (f + 1) (0x15 :: X) (I32LIM - 2 + 1) = .panic .overflow := by
+  have e : (0x15 : UInt8) :: X = header .anon (.cont .struct) ++ X := by rw [header_anon_struct]; rfl
+  have hl : I32LIM - 2 + 1 = I32LIM - 1 := by unfold I32LIM; omega
+  simp only [skipLoop, e, control_header, Res.ok_bind, hl, levelStep_overflow, Res.panic_bind]
+
+theorem containerNext_open (t : Tag) (k : Kind) (X : Bytes) :
+    containerNext (header t (.cont k) ++ X) = skipLoop (header t (.cont k) ++ X).length X 1 := by
+  have hne : (header t (.cont k) ++ X).isEmpty = false := by simp [header]
+  simp only [containerNext, hne, Bool.false_eq_true, if_false, control_header, Res.ok_bind,
+    ValueType.isContainerEnd, nextEnter_open, ValueType.isContainer, ValueType.isContainerStart, Bool.true_or, if_true]
+
+/-- **whole-run witness**: `container_next` (the advance of the element iterator) on an input consisting of
+at least 2^31 anonymous structure-start bytes panics with the `i32` overflow — proved symbolically by the loop
+lemma `skipLoop_opens`, no 2-GiB list is evaluated -/
+theorem containerNext_overflow (bs : Bytes) (hall : ∀ b ∈ bs, b = 0x15) (hlen : I32LIM ≤ bs.length) :
+    containerNext bs = .panic .overflow := by
+  have hrep : bs = List.replicate bs.length 0x15 := List.eq_replicate_iff.mpr ⟨rfl, hall⟩
+  have hI : 2 ≤ I32LIM := by unfold I32LIM; omega
+  obtain ⟨m, hm⟩ : ∃ m, bs.length = 1 + ((I32LIM - 2) + (1 + m)) := ⟨bs.length - I32LIM, by omega⟩
+  generalize hK : I32LIM - 2 = K at hm
+  have h1 : ∀ n, List.replicate (1 + n) (0x15 : UInt8) = 0x15 :: List.replicate n 0x15 := by
+    intro n; rw [Nat.add_comm, List.replicate_succ]
+  have hsplit : bs = header .anon (.cont .struct) ++
+      (List.replicate K 0x15 ++ (0x15 :: List.replicate m 0x15)) := by
+    rw [header_anon_struct]
+    conv => lhs; rw [hrep, hm, h1, ← List.replicate_append_replicate, h1]
+    rfl
+  rw [hsplit, containerNext_open, ← hsplit, hm, show 1 + (K + (1 + m)) = (1 + m + 1) + K by omega]
+  rw [skipLoop_opens K (1 + m + 1) _ 0 (by omega)]
+  rw [show 0 + 1 + K = I32LIM - 2 + 1 by omega]
+  exact skipLoop_overflow _ _
+
+/-- … and so does the first `next()` of the element iterator over such a sequence -/
+theorem iterNext_overflow (bs : Bytes) (hall : ∀ b ∈ bs, b = 0x15) (hlen : I32LIM ≤ bs.length) :
+    iterNext bs = (some (.panic .overflow), []) := by
+  have hn := containerNext_overflow bs hall hlen
+  have hI : 2 ≤ I32LIM := by unfold I32LIM; omega
+  cases bs with
+  | nil => simp at hlen; omega
+  | cons b tl =>
+    have hb : b = 0x15 := hall b (by simp)
+    subst hb
+    have hc : control (0x15 :: tl) = .ok ⟨.anon, .cont .struct⟩ := by simp only [control]; decide
+    have hcur : current (0x15 :: tl) = .ok (0x15 :: tl) := by
+      simp [current, hc, ValueType.isContainerEnd]
+    simp only [iterNext, hcur, hn]
+/-! ### the writer entry points with a caller-side length: `stri` / `utf8i`, `str_cb` / `utf8_cb` -/
+
+/-- with the right length, `stri` / `str` writes exactly the leaf `Prim.mkStr data` -/
+theorem writeStri_str (t : Tag) (data : Bytes) :
+    writeStri false t data.length data = encode (.leaf t (Prim.mkStr data)) := by
+  simp [writeStri, encode, Prim.mkStr, Prim.vt, Prim.payload]
+
+theorem writeStri_utf8 (t : Tag) (data : Bytes) :
+    writeStri true t data.length data = encode (.leaf t (Prim.mkUtf8 data)) := by
+  simp [writeStri, encode, Prim.mkUtf8, Prim.vt, Prim.payload]
+
+theorem lenWidth_le_255 {n : Nat} (h : n ≤ 255) : lenWidth n = .w1 := by simp [lenWidth, h]
+theorem lenWidth_le_65535 {n : Nat} (h1 : ¬ n ≤ 255) (h2 : n ≤ 65535) : lenWidth n = .w2 := by
+  simp [lenWidth, h1, h2]
+
+/-- `str_cb` / `utf8_cb` with at most 65535 bytes from the callback: the shortest-form leaf -/
+theorem writeStrCb_str (t : Tag) (data : Bytes) (h : data.length ≤ 65535) :
+    writeStrCb false t data = .ok (encode (.leaf t (Prim.mkStr data))) := by
+  unfold writeStrCb
+  by_cases h1 : data.length ≤ 255
+  · simp [h1, encode, Prim.mkStr, Prim.vt, Prim.payload, lenWidth_le_255 h1, Width.bytes]
+  · simp [h1, h, encode, Prim.mkStr, Prim.vt, Prim.payload, lenWidth_le_65535 h1 h, Width.bytes]
+
+theorem writeStrCb_utf8 (t : Tag) (data : Bytes) (h : data.length ≤ 65535) :
+    writeStrCb true t data = .ok (encode (.leaf t (Prim.mkUtf8 data))) := by
+  unfold writeStrCb
+  by_cases h1 : data.length ≤ 255
+  · simp [h1, encode, Prim.mkUtf8, Prim.vt, Prim.payload, lenWidth_le_255 h1, Width.bytes]
+  · simp [h1, h, encode, Prim.mkUtf8, Prim.vt, Prim.payload, lenWidth_le_65535 h1 h, Width.bytes]
+
+/-- beyond 65535 bytes the callback writers panic (a literal `panic!`, not an error) -/
+theorem writeStrCb_panics (u : Bool) (t : Tag) (data : Bytes) (h : 65535 < data.length) :
+    writeStrCb u t data = .panic .explicit := by
+  unfold writeStrCb
+  rw [if_neg (by omega), if_neg (by omega)]
 
 end Tlv
